@@ -45,15 +45,33 @@ pub fn handle(ctx: &mut DriverCtx, cmd: &str, req: &Value) -> Result<Value, Stri
                 let script = parse_script(sv)?;
                 let t = (idx + 1) as u64;
                 let lg = log.clone();
+                // hoist: every sleep future of the task is CREATED when the task starts and awaited where the script says
+                // (a guard / timeout idiom); a sleep counts from the moment it is awaited, so this must not change anything
+                let hoist = req.get("hoist").and_then(|h| h.as_bool()).unwrap_or(false);
                 driver.spawn(async move {
                     let mut want = current_cycle();
                     lg.borrow_mut().push((t, 1, current_cycle(), want));
+                    let mut early: Vec<Option<std::pin::Pin<Box<dyn std::future::Future<Output = ()>>>>> = Vec::new();
+                    if hoist {
+                        for item in script.iter() {
+                            early.push(match item {
+                                Item::Sleep(d) => Some(Box::pin(sleep_cycles(*d))),
+                                Item::Emit => None,
+                            });
+                        }
+                    }
                     for (i, item) in script.iter().enumerate() {
                         match item {
                             Item::Emit => emit_event(DriverEvent::User((t * 100 + (i as u64 + 1)) as u32)),
                             Item::Sleep(d) => {
                                 want = current_cycle() + *d;
-                                sleep_cycles(*d).await;
+                                if hoist {
+                                    if let Some(f) = early[i].take() {
+                                        f.await;
+                                    }
+                                } else {
+                                    sleep_cycles(*d).await;
+                                }
                                 lg.borrow_mut().push((t, i as u64 + 2, current_cycle(), want));
                             }
                         }
